@@ -383,6 +383,14 @@ def r11(ctx, prog):
     ctx.floor(R, 1)
 
 
+def r12(ctx, prog):
+    R = ctx.rule("C01.R12", "a live block keeps its contents across delayed purges: the commit/purge mask built for a slice range contains exactly the bits of the range, "
+                            "for every offset and count including a whole 64-slice field — a missing bit leaves the pending purge of slices that were just handed out "
+                            "un-cancelled, and the purge later decommits the middle of the live block")
+    shared.commit_mask_exact(ctx, R, prog)
+    ctx.floor(R, 1)
+
+
 def run(ctx):
     ctx.explanation = ("Static decision of C01's code-shaped necessary conditions (all CFG paths): pairing of the free-list pop/push with the used counter, conservation of blocks "
                        "between the three lists, free-list extension bounded by the reserve computed from the page's own area, page free only when all-free, span "
@@ -391,7 +399,7 @@ def run(ctx):
     for c in (["REL"] if ctx.tier == "quick" else ["REL", "SEC", "DBG"]):
         prog = ctx.prog(c)
         n0 = len(ctx.instances)
-        r1(ctx, prog); r2(ctx, prog); r3(ctx, prog); r4(ctx, prog); r5(ctx, prog); r6(ctx, prog); r7(ctx, prog); r8(ctx, prog); r9(ctx, prog); r10(ctx, prog); r11(ctx, prog)
+        r1(ctx, prog); r2(ctx, prog); r3(ctx, prog); r4(ctx, prog); r5(ctx, prog); r6(ctx, prog); r7(ctx, prog); r8(ctx, prog); r9(ctx, prog); r10(ctx, prog); r11(ctx, prog); r12(ctx, prog)
         if c != "REL":
             for i in ctx.instances[n0:]:
                 i["site"] += " [%s]" % c
